@@ -32,7 +32,7 @@ Lemma read_chunk_lines m k file st D : (1 <= k)%nat -> Inv m file st D -> Forall
 Proof.
   intros Hk HI HD HWf.
   pose proof (read_chunk_spec true f m k file st D Hk HI) as HGs.
-  unfold read_chunk in *.
+  unfold read_chunk in *. unfold m_is_finished, m_reported, m_lines_after, m_oneline_incomplete, m_oneline_kept, m_size_after, m_header_line, m_plus_line in *.
   set (temp0 := match r_prepend st with [] => [] | p => [p] end) in *.
   assert (Ht0 : concat temp0 = r_prepend st ++ []).
   { unfold temp0. destruct (r_prepend st); [reflexivity|]. cbn [concat]. reflexivity. }
@@ -184,7 +184,7 @@ Lemma cut_oneline_shape n hdr plus chunk size nl : (1 <= n)%nat ->
   (n <= cnt)%nat /\ nl = (cnt - cnt mod n)%nat
   /\ size = Z.to_nat (nth (nl - 1) (nl_pos chunk) 0%Z + 1).
 Proof.
-  intros Hn H. unfold cut in H. fold (count_nl chunk) in H.
+  intros Hn H. unfold cut in H. unfold m_is_finished, m_reported, m_lines_after, m_oneline_incomplete, m_oneline_kept, m_size_after, m_header_line, m_plus_line in *. fold (count_nl chunk) in H.
   destruct (count_nl chunk <? n)%nat eqn:Ec; [discriminate|]. apply Nat.ltb_ge in Ec.
   cbv zeta in H.
   assert (Hm : (1 <= count_nl chunk - count_nl chunk mod n <= length (nl_pos chunk))%nat).
@@ -233,14 +233,14 @@ Proof.
     destruct (Nat.lt_ge_cases (count_nl Y) n) as [Hlt|Hge]; [|exact Hge].
     rewrite Nat.mod_small in Hw by exact Hlt. lia. }
   destruct (cut (OneLine n hdr plus) Y) eqn:Ecut; try discriminate.
-  - unfold cut in Ecut. fold (count_nl Y) in Ecut.
+  - unfold cut in Ecut. unfold m_is_finished, m_reported, m_lines_after, m_oneline_incomplete, m_oneline_kept, m_size_after, m_header_line, m_plus_line in *. fold (count_nl Y) in Ecut.
     replace (count_nl Y <? n)%nat with false in Ecut by (symmetry; apply Nat.ltb_ge; exact Hc).
     cbv zeta in Ecut.
     repeat match type of Ecut with
            | (if ?c then _ else _) = _ => destruct c
            | match ?c with _ => _ end = _ => destruct c
            end; discriminate.
-  - unfold cut in Ecut. fold (count_nl Y) in Ecut.
+  - unfold cut in Ecut. unfold m_is_finished, m_reported, m_lines_after, m_oneline_incomplete, m_oneline_kept, m_size_after, m_header_line, m_plus_line in *. fold (count_nl Y) in Ecut.
     replace (count_nl Y <? n)%nat with false in Ecut by (symmetry; apply Nat.ltb_ge; exact Hc).
     cbv zeta in Ecut.
     repeat match type of Ecut with
